@@ -140,6 +140,7 @@ type runOutcome struct {
 	LogPath  string      `json:"logPath"`
 	Before   *string     `json:"before"`
 	AbsCwd   string      `json:"absCwd"`
+	Work     string      `json:"work"`
 }
 
 // expected paths, by the documented rule (independent of the model; uses Go's path functions)
@@ -299,9 +300,9 @@ func init() {
 			switch *prop {
 			case "C15", "C18":
 				for _, fset := range flagSets {
-					spellings := []string{"rel", "abs", "pkgdir", "gofile", "dotrel"}
+					spellings := []string{"rel", "abs", "pkgdir", "gofile", "dotrel", "absoutside"}
 					if !*thorough {
-						spellings = []string{"rel", []string{"abs", "pkgdir", "gofile", "dotrel"}[r.Intn(4)]}
+						spellings = []string{"rel", []string{"abs", "pkgdir", "gofile", "dotrel", "absoutside"}[r.Intn(5)]}
 					}
 					if movable(c) {
 						spellings = append(spellings, "dotgo")
@@ -327,7 +328,7 @@ func init() {
 					}
 				}
 			case "C13":
-				for _, sp := range []string{"rel", "abs", "pkgdir", "gofile", "dotrel", "rel", "abs", "rel", "rel", "pkgdir", "rel", "abs"} {
+				for _, sp := range []string{"rel", "abs", "pkgdir", "gofile", "dotrel", "rel", "abs", "absoutside", "rel", "pkgdir", "rel", "absoutside"} {
 					scenarios = append(scenarios, RunScenario{Base: c.Name, Kind: "repeat", OutState: "absent",
 						Argv: spellArgs(c, nil, sp).Argv, Gofile: spellArgs(c, nil, sp).Gofile, Cwd: spellArgs(c, nil, sp).Cwd})
 				}
@@ -444,11 +445,11 @@ func init() {
 					}
 					mw := map[string]bool{}
 					for _, w := range p.Writes {
-						mw[filepath.Clean(filepath.Join(o.Scenario.Cwd, relCwd(w)))] = true
+						mw[inWork(o, w)] = true
 					}
 					if o.Scenario.OutState == "current" && ref.Kind == "ok" && o.Before != nil && *o.Before == ref.Bytes {
 						// rewriting the bytes that are there already is no change of the tree
-						delete(mw, filepath.Clean(filepath.Join(o.Scenario.Cwd, o.OutPath)))
+						delete(mw, inWork(o, o.OutPath))
 					}
 					iw := map[string]bool{}
 					for _, c := range o.Changed {
@@ -469,10 +470,10 @@ func init() {
 				}
 			}
 			// ---- judges on the implementation alone
-			outRel := filepath.Clean(filepath.Join(o.Scenario.Cwd, o.OutPath))
+			outRel := inWork(o, o.OutPath)
 			logRel := ""
 			if o.LogPath != "" {
-				logRel = filepath.Clean(filepath.Join(o.Scenario.Cwd, o.LogPath))
+				logRel = inWork(o, o.LogPath)
 			}
 			for _, c := range o.Changed {
 				if c != outRel && c != logRel {
@@ -701,6 +702,13 @@ func spellArgs(c GCase, flags []string, spelling string) spelled {
 			argv = append(argv, "-out", "ABS/"+outName(filepath.Dir(setup)))
 		}
 		argv = append(argv, "ABS/"+setup)
+	case "absoutside":
+		// absolute paths, run from a directory outside the module
+		s.Cwd = ".."
+		if outArg != "" {
+			argv = append(argv, "-out", "ABS/"+outName(filepath.Dir(setup)))
+		}
+		argv = append(argv, "ABS/"+setup)
 	case "pkgdir":
 		s.Cwd = filepath.Dir(setup)
 		if outArg != "" {
@@ -807,6 +815,17 @@ func onlyAddedImportsDiffer(a, b, setupSrc string) bool {
 	return n > 0
 }
 
+// inWork spells a path of a run (relative to its working directory, or absolute) relative to the scratch module
+func inWork(o runOutcome, p string) string {
+	if !filepath.IsAbs(p) {
+		p = filepath.Join(o.AbsCwd, p)
+	}
+	if r, err := filepath.Rel(o.Work, p); err == nil {
+		return filepath.Clean(r)
+	}
+	return filepath.Clean(p)
+}
+
 // runScenario prepares the state, runs the CLI, snapshots and asks the model.
 func runScenario(cli string, drv *Driver, work string, sc RunScenario, ref coreRef) (runOutcome, *RunPrediction) {
 	abs := func(a string) string { return strings.ReplaceAll(a, "ABS/", work+"/") }
@@ -816,7 +835,7 @@ func runScenario(cli string, drv *Driver, work string, sc RunScenario, ref coreR
 	}
 	cwd := filepath.Join(work, sc.Cwd)
 	_, output, logp, _, _, _, ok := expectedPaths(argv, sc.Gofile)
-	o := runOutcome{Scenario: sc, OutPath: output, LogPath: logp, AbsCwd: cwd}
+	o := runOutcome{Scenario: sc, OutPath: output, LogPath: logp, AbsCwd: cwd, Work: work}
 	o.Scenario.Argv = argv
 	resolve := func(p string) string {
 		if filepath.IsAbs(p) {
